@@ -7,4 +7,4 @@ cd /verif || exit 2
 if [ ! -x /verif/bin/vcheck ] || [ -n "$(find /verif/gosx -newer /verif/bin/vcheck -name '*.go' 2>/dev/null | head -1)" ]; then
   (cd /verif/gosx && go build -o /verif/bin/vcheck ./cmd/vcheck) || exit 2
 fi
-exec /verif/bin/vcheck run "$1" --tier "${2:-quick}"
+exec /verif/bin/vcheck run --tier "${2:-quick}" "$1"
